@@ -72,18 +72,19 @@ def harnesses(tier, seed):
         hs.append(foreach_harness("FL", "slice", 3, 2, 1))
         hs.append(unsched_count("MF", "iterf", 3, 2, 1))
     else:
+        heavy_ty = ("FL", "FLF")
         for ty in ("E", "M", "F", "MF", "FM", "FMF", "FL", "FLF"):
-            for src in ("slice", "vec", "range"):
-                for (n, t, c) in ((4, 2, 1), (4, 2, 2), (5, 3, 1), (5, 2, 3), (4, 3, 2)):
-                    if src != "slice" and (n, t, c) not in ((4, 2, 1), (4, 2, 2)):
-                        continue
-                    hs.append(count_harness(ty, src, n, t, c))
-            hs.append(count_harness(ty, "slice", 4, 2, "auto", "ChunkSize::Auto"))
-            hs.append(count_harness(ty, "slice", 4, 2, "min2", "ChunkSize::Min(NonZeroUsize::new(2).unwrap())"))
+            cfgs = [(4, 2, 1), (4, 2, 2), (5, 3, 1), (5, 2, 2)] if ty not in heavy_ty else [(4, 2, 1), (3, 2, 2), (5, 2, 2)]
+            for (n, t, c) in cfgs:
+                hs.append(count_harness(ty, "slice", n, t, c))
+            for src in ("vec", "range", "sched", "schedx"):
+                hs.append(count_harness(ty, src, 4 if ty not in heavy_ty else 3, 2, 1))
+            if ty not in heavy_ty:
+                hs.append(count_harness(ty, "slice", 4, 2, "min2", "ChunkSize::Min(NonZeroUsize::new(2).unwrap())"))
             if ty != "FLF":  # FLF.for_each = FLF.map(f).count(): map after a filtered flat_map is an eager
                 # site (C16 finding) whose inner collect has symbolic lengths - beyond reach symbolically
                 for c in (1, 2):
-                    hs.append(foreach_harness(ty, "slice", 4, 2, c))
+                    hs.append(foreach_harness(ty, "slice", 4 if ty not in heavy_ty else 3, 2, c))
             for src in ("iter", "iterf", "deque"):
                 for c in (1, 2):
                     hs.append(unsched_count(ty, src, 3, 2, c))
